@@ -1,0 +1,18 @@
+//go:build verif
+
+// Contracts for govc (see /verif/DESIGN.md). Comment-only: no executable code with or without the tag.
+
+package interfaces
+
+//@ import pb "github.com/refraction-networking/conjure/proto"
+//@ import io "io"
+
+// Frame of a registration override: it may rewrite the wrapper and anything reachable from it (program memory),
+// but it performs no lock operation (no ghost state changes).
+//@ func (o RegOverride) Override(reg *pb.C2SWrapper, randReader io.Reader) error
+//@   assigns memory
+
+//@ func (o Overrides) Override(reg *pb.C2SWrapper, randReader io.Reader) error
+//@   assigns memory
+//@ loop 1:
+//@   invariant true
